@@ -147,7 +147,7 @@ def build_bay(pd, tiles=1):
 def observe_bay_aero(pd, req):
     b = build_bay(pd, tiles=req.get("tiles", 1))
     q = req["q"]
-    b.flow = req.get("flow", "x")
+    b.flow = req.get("flow", "x").upper() if req.get("upper") else req.get("flow", "x")
     if q == "kAmach":
         b.Mach, b.rho_air, b.V, b.speed_sound = (float(fr(req[k])) for k in ("mach", "rho", "V", "ainf"))
     elif q == "kA":
@@ -357,14 +357,14 @@ def execute(p, pd, req):
         if q == "kM":
             M = p.calc_kM(silent=True, **kw) if not req.get("nofin") else _fin(p.calc_kM(silent=True, finalize=False, **kw))
         elif q == "kA":
-            p.flow = req["flow"]
+            p.flow = req["flow"].upper() if req.get("upper") else req["flow"]      # the flag is accepted in any case
             if req.get("sweep"):           # a parameter sweep on one object: another flow condition first
                 p.beta, p.gamma = 1.75, (0.5 if float(fr(req["gamma"])) else 0.)
                 p.calc_kA(silent=True, **kw)
             p.beta, p.gamma = float(fr(req["beta"])), float(fr(req["gamma"]))
             M = p.calc_kA(silent=True, **kw)
         elif q == "kAmach":
-            p.flow = req["flow"]
+            p.flow = req["flow"].upper() if req.get("upper") else req["flow"]      # the flag is accepted in any case
             if req.get("sweep"):
                 p.Mach, p.rho_air, p.V, p.speed_sound = 2.0, 0.75, 5.0, 1.5
                 p.calc_kA(silent=True, **kw)
@@ -605,7 +605,7 @@ def well_posed(pd):
 def jreq(r):
     out = dict(q=r["q"], size=r.get("size", 0), row0=r.get("row0", 0), col0=r.get("col0", 0))
     for k in ("N", "flow", "beta", "gamma", "aeromu", "c", "pts", "NL", "forces", "forcesInc", "inc", "cores", "num", "extra", "table",
-              "mach", "root", "rho", "V", "ainf", "via", "k0first", "taper", "route", "ctor", "nofin", "sweep", "dflt", "vialb", "rows", "pre", "nok0", "lbstudy", "tiles", "both", "cform"):
+              "mach", "root", "rho", "V", "ainf", "via", "k0first", "taper", "route", "ctor", "nofin", "sweep", "dflt", "vialb", "rows", "pre", "nok0", "lbstudy", "tiles", "both", "cform", "upper"):
         if k in r:
             out[k] = r[k]
     return out
@@ -844,6 +844,8 @@ def run_prop(prop, qs, tier, seed, build, nrand_quick=40, nrand_thorough=600, wh
             restrain_flow_edges(pd, r["flow"])
         if q in ("kA", "cA", "kAmach") and pd["model"] != "plate_w" and rng.random() < 0.4:
             r["via"], r["tiles"], r["k0first"] = "bay", rng.randint(1, 3), rng.random() < 0.5
+        if q in ("kA", "kAmach") and rng.random() < 0.4:
+            r["upper"] = True
         if q in ("fint", "kT", "kGc"):
             pd["m"], pd["n"] = min(pd["m"], 3), min(pd["n"], 3)
             if q == "fint" and rng.random() < 0.3:
@@ -873,6 +875,8 @@ def run_prop(prop, qs, tier, seed, build, nrand_quick=40, nrand_thorough=600, wh
                 r["ctor"] = True
             if k % 5 == 2 and not r.get("sweep"):
                 r["both"] = True            # scalar plyt / laminaprop given next to the per-ply lists
+            if r["q"] in ("kA", "kAmach") and k % 2 == 1:
+                r["upper"] = True           # flow = 'X' / 'Y' 
             if r["q"] in ("uvw", "strain", "stress"):
                 r["cform"] = k % 3
             if r["q"] in ("fext", "static"):
